@@ -33,7 +33,12 @@ def corr_paths(d, rows):
             sh.linalg._owner.force_sym_cond = True
             m.correlation = m._get_correlation(X)
             dct = m.to_dict()
-        return {'corr': m.correlation, 'calls': cs.calls, 'dict': dct, 'const': ctx.notes.get('corr_const'),
+            calls = list(cs.calls)
+            # reference, independent of how the code called corr(): the Pearson contract applied to the documented
+            # normal-score frame (the stub is a deterministic function of the data)
+            Z = objarr([[SymReal(score(j, xs[r][j])) for j in range(d)] for r in range(rows)])
+            cs(pd.DataFrame(Z, columns=cols))
+        return {'corr': m.correlation, 'calls': calls, 'dict': dct, 'const': ctx.notes.get('corr_const'),
                 'M': ctx.notes.get('corr_M'), 'cond': [e for e in ctx.log if e[0] == 'cond']}
     with gm.gm_patches():
         paths, ex, dt = explore(fn, max_paths=20000, tlimit=300)
